@@ -493,10 +493,17 @@ func generateOutputScenario(g gen, sc *Scenario) {
 		ds.Pipelines = append(ds.Pipelines, p)
 	}
 	sc.Defs = []DefSet{ds}
+	// In 30% of the scenarios jobs are canceled as well. A child process cannot be stopped half-way here (the driver
+	// waits for it), but a cancel can land between the end of a task's last command and the runner taking note of
+	// it: such a task is reported as canceled although it ran to its end, and what it wrote is still its log.
+	cancels := g.p(300)
 	for c := 0; c < 1+g.n(3); c++ {
 		var prog []Op
 		for i := 0; i < 1+g.n(2); i++ {
 			prog = append(prog, Op{Kind: "schedule", Pipeline: ds.Pipelines[g.n(len(ds.Pipelines))].Name, User: fmt.Sprintf("u%d", c)})
+			if cancels && g.p(500) {
+				prog = append(prog, Op{Kind: "cancel", Job: 1 + g.n(4)})
+			}
 			for g.p(450) {
 				// somebody reads the logs while the jobs run
 				prog = append(prog, Op{Kind: "logs", Job: 1 + g.n(4), Route: g.n(64)})
